@@ -80,12 +80,23 @@ CHECKS.update({
                 technique="deterministic simulation: discrete-event virtual time, stall faults, enumerated offset slice"),
 })
 
+CHECKS.update({
+    "C10": dict(level="exploration",
+                text="Seeded API call sequences (valid and invalid arguments, wrong JSON types, non-object bodies) through "
+                     "the real Quart and Flask front ends of an engine running in the simulator, compared response by "
+                     "response with a dict reference model; store snapshots around every rejected call; no 5xx accepted; "
+                     "failing sequences minimised by ddmin and replayable.",
+                ref="5/C10", note=NOTE_BASE + "; reference model model/api.py; file-backed store, one instance.",
+                technique="deterministic simulation: seeded operation histories against a reference model (differential), "
+                          "ddmin minimisation"),
+})
+
 NA = [
     ("C12", "pure functions of (document, path, result): no schedule, clock, fault or interleaving to simulate"),
     ("C13", "pure function of (template, input, context): no schedule, clock, fault or interleaving to simulate"),
     ("C14", "pure function of (rule tree, input): no schedule, clock, fault or interleaving to simulate"),
 ]
-NOT_YET = {'C10': 'check not built yet (in progress)', 'C11': 'check not built yet (in progress)', 'C15': 'check not built yet (in progress)', 'C16': 'check not built yet (in progress)', 'C17': 'check not built yet (in progress)', 'C18': 'check not built yet (in progress)', 'C19': 'check not built yet (in progress)', 'C20': 'check not built yet (in progress)'}
+NOT_YET = {'C11': 'check not built yet (in progress)', 'C15': 'check not built yet (in progress)', 'C16': 'check not built yet (in progress)', 'C17': 'check not built yet (in progress)', 'C18': 'check not built yet (in progress)', 'C19': 'check not built yet (in progress)', 'C20': 'check not built yet (in progress)'}
 
 FIX_COMMITS = []
 
